@@ -12,6 +12,7 @@ import (
 	"os"
 	"strings"
 
+	"golang.org/x/tools/go/ssa"
 	"verif/harness/gen"
 	"verif/harness/lib"
 	"verif/harness/ptrrun"
@@ -97,6 +98,23 @@ func checkProgram(rep *lib.Report, run *ptrrun.Result, pi int) {
 			c = run.FailCases[0]
 		}
 		rep.Fail(fmt.Sprintf("criterion:%d", pi), what, ptrrun.Replay(run, c, what+"\n"+strings.Join(d.MissingQuery, "\n")), true)
+	}
+	// sensitivity self-check: with one function declared `unsafe-no-effect` the criterion must fail, and only there
+	if closed && len(missed) == 0 {
+		var victim *ssa.Function
+		for _, fn := range d.Funcs {
+			if strings.HasSuffix(fn.String(), fmt.Sprintf(".c%df0", pi)) {
+				victim = fn
+			}
+		}
+		if victim != nil {
+			fails, stray, text := ptrrun.Canary(run, victim)
+			rep.Notes = append(rep.Notes, text)
+			rep.Extra["canary_failures"] = intOf(rep.Extra["canary_failures"]) + fails
+			if fails == 0 || stray > 0 {
+				rep.Fail(fmt.Sprintf("harness-canary:%d", pi), "sensitivity self-check of the criterion failed: "+text, []byte(run.Prog.Main), true)
+			}
+		}
 	}
 	if os.Getenv("VERIF_C11_KEEP") == "" {
 		run.Cleanup()
